@@ -409,6 +409,15 @@ func (env *Zlisp) ImportBaseTypes() {
 		sort.Strings(names)
 		for _, name := range names {
 			e := m[name]
+			// constructors such as (field ...) and (hash ...) register
+			// their type name on first use, process-wide; that entry
+			// must not replace the builtin of the same name in
+			// interpreters created later.
+			if prior, found := env.FindObject(e.RegisteredName); found {
+				if fn, isFn := prior.(*SexpFunction); isFn && fn.user {
+					continue
+				}
+			}
 			env.AddGlobal(e.RegisteredName, e)
 		}
 	}
